@@ -197,10 +197,15 @@ def explore(thunk, axioms=(), max_paths=4000):
         except PathEnd as e:
             outcome = ('end', str(e))
         except Unsupported as e:
+            if __import__('os').environ.get('VF_DEBUG'):
+                import traceback
+                traceback.print_exc()
             outcome = ('unsupported', str(e))
         except (ReturnLeak, RecursionError, z3.Z3Exception, TypeError, AttributeError, KeyError, IndexError,
                 ValueError, AssertionError) as e:      # engine-level failure on this path: undecided, never a verdict
             import traceback
+            if __import__('os').environ.get('VF_DEBUG'):
+                traceback.print_exc()
             tb = traceback.extract_tb(e.__traceback__)[-1]
             outcome = ('unsupported', f'engine error {type(e).__name__}: {e} at {tb.filename.rsplit("/", 1)[-1]}:{tb.lineno}')
         work.extend(run.alternatives)
